@@ -483,7 +483,6 @@ func (env *SpecEnv) binary(x EBin) Val {
 		return boolVal(t)
 	case "<", "<=", ">", ">=":
 		if s == sStr {
-			e.ctx.declareFun("s_lt", []string{sStr, sStr}, sBool)
 			switch x.Op {
 			case "<":
 				return boolVal(app("s_lt", l.T, r.T))
@@ -1151,6 +1150,18 @@ func (env *SpecEnv) binaryBV(x EBin, l, r Val) Val {
 			return boolVal(eq(l.T, r.T))
 		case "!=":
 			return boolVal(not(eq(l.T, r.T)))
+		}
+		if l.S == sStr {
+			switch x.Op {
+			case "<":
+				return boolVal(app("s_lt", l.T, r.T))
+			case ">":
+				return boolVal(app("s_lt", r.T, l.T))
+			case "<=":
+				return boolVal(not(app("s_lt", r.T, l.T)))
+			case ">=":
+				return boolVal(not(app("s_lt", l.T, r.T)))
+			}
 		}
 	}
 	signed := true
